@@ -4,6 +4,12 @@
 // Unit Eval: generated typed ASTs (≈70 % well-typed by construction, ≈30 % ill-typed at one
 // position) x scope histories of 1-12 steps (types of names change between steps) x 1-3
 // groups (CopyReset copies as nodes make them) x entry points (Eval, Eval<T>, Type+Eval<T>).
+// Three targeted classes: stateful-left (a stateful call left of an operand that changes type),
+// stateful-lambda-position (lambda variables holding a stateful call at any position of a host
+// expression - either operand, any argument index of a call, under a unary operator, inside
+// if() - with 2-3 interleaved groups) and stateful-before-failure (a stateful call left of / in
+// an earlier argument than an operand that fails on some values: zero divisors, strings that do
+// not parse; over every cell of the operator table).
 // Oracle A: the reference interpreter of ref.go. Oracle B (no model): the outcome of every
 // step of the long-lived expression equals the outcome of a freshly compiled expression that
 // is fed only the steps of the same group (for stateless expressions: only that step).
@@ -42,7 +48,9 @@ type Case struct {
 	Steps   []Step   `json:"steps"`
 }
 
-const rule = "rapid: typed lambda AST (depth <= 5; literals, references, unary, all binary operators, all deterministic built-ins, if(), nested lambdas; ~30% ill-typed at one position) " +
+const rule = "rapid: typed lambda AST (depth <= 5; literals, references, unary, all binary operators, all deterministic built-ins, if(), nested lambdas; ~30% ill-typed at one position; " +
+	"targeted: stateful call left of an operand that changes type / lambda variables with a stateful call at any operand or argument position with 2-3 interleaved groups / " +
+	"stateful call before an operand that fails on a value (zero divisor, string that does not parse) for every operator-table cell) " +
 	"x history of 1-12 scopes (int/float/string/bool/duration/time/missing/unset with boundary values, types changing between steps) x 1-3 groups (CopyReset copies) x entry point per step; " +
 	"non-trivial = (the AST has a binary operator over a reference AND a referenced name changes type within the history) OR (>= 2 groups evaluated AND the AST has a stateful function); distinct by case hash"
 
@@ -53,10 +61,16 @@ var assumptions = []string{
 	"int<->float comparisons convert the int to float64; where the exact and the converted comparison differ (|int| > 2^53) nothing is asserted",
 	"nothing is asserted where the docs are silent: integer/duration overflow, float % float, string() of floats outside plain decimal notation, strLength/strSubstring on non-ASCII strings, strSubstring with stop == length, humanBytes of negative values, compound or negative duration strings, spread(NaN), results of type time/regex at the root",
 	"doc vs declared signature disagreements are accepted both ways: int(duration), duration(string) without unit, duration(duration, unit), isPresent(duration|time|regex), isPresent over a failing non-reference expression",
-	"if() is a function (eager arguments); stateful functions are not generated inside its branches and an error in the branch that is not selected is accepted both ways",
+	"if() is a function (eager arguments), but whether the branch that is not selected is evaluated is not documented: an error in that branch is accepted both ways, and a step in which that branch holds a stateful call " +
+		"(generated only through lambda variables, class stateful-lambda-position) is not judged by the reference - the group is then followed by the fresh-vs-aged differential only",
 	"sigma(x): |x-mean|/stddev with running mean and sample variance that include x (Welford), 0 while fewer than 2 values or zero variance (CHANGELOG #763); results derived from sigma are compared with relative tolerance 1e-9, non-float results derived from them are not asserted on mismatch",
 	"at most one call site per stateful function and lambda body (the docs do not say whether two call sites share state); a nested lambda has its own state (TestEvalLambdaNode_EvalBool_SeparateState)",
-	"whether a point that ends in an error advances stateful functions is not specified: after a failed step every state reachable by aborting the left-to-right evaluation at a stateful call is accepted (candidate set)",
+	"whether a point that ends in an error advances stateful functions is not specified in general (a type check may turn the point down before anything is evaluated): after a failed step every state reachable by aborting the left-to-right evaluation at a stateful call is accepted (candidate set), with the one exception of the next assumption",
+	"operands of an operator and arguments of a call are evaluated left to right and only AND/OR skip an operand (property statement: AND/OR short-circuit; CHANGELOG #491 announces as BREAKING that a short-circuited count() is no longer evaluated, " +
+		"#298 that a changed evaluation order breaks stateful expressions; count() is documented to count the evaluations; read from tick/stateful: all 61 evaluation functions evaluate the left node first, callFunction evaluates the arguments in order): " +
+		"when the point is well-typed for the expression (the types of its values satisfy every operator and signature, so no type check can turn it down), the entry point asks for the expression's own type (Eval, or Eval<T> with T that type), " +
+		"and the evaluation fails on a VALUE (integer/duration / or % by zero, strSubstring range, a string that int()/float()/bool()/duration() cannot parse) behind the last stateful call site of the expression, every stateful call has processed the point: only that state is accepted. " +
+		"A failure before or between stateful call sites keeps the candidate set",
 	"a constant sub-expression that is ill-typed for every scope may be rejected at compile time (NewExpression) instead of at evaluation",
 	"number literals may be negative (substituted TICKscript variables); the order argument of jn/yn is a small literal (math.Jn loops n times)",
 	"AND/OR short-circuit over a right operand that is ill-typed for the point (type mismatch, missing field): when the skipped operand is a comparison, regex match or AND/OR (boolean whatever it contains) the short-circuit value is due; when its type has to be derived from the ill-typed parts (reference, unary, arithmetic, function call) the short-circuit value and an error are both accepted",
@@ -99,7 +113,12 @@ func genCase(t *rapid.T) Case {
 	c.UseCopy = rapid.Bool().Draw(t, "copy")
 	g.noNested = exclNestedLambda && (c.Groups > 1)
 	var forced map[string][]VT // targeted class: kinds a name alternates between
-	switch g.pick("class", 11, 3, 6) {
+	minSteps := 1
+	cls := g.pick("class", 11, 3, 6, 2, 3)
+	if exclNestedLambda && cls == 3 {
+		cls = 0
+	}
+	switch cls {
 	case 0:
 		c.Class = "well-typed"
 		want := rapid.SampledFrom([]VT{tBool, tBool, tInt, tFloat, tString, tDur}).Draw(t, "roottype")
@@ -107,6 +126,18 @@ func genCase(t *rapid.T) Case {
 	case 1:
 		c.Class = "stateful-left"
 		c.Tree, forced = g.targeted()
+	case 3:
+		// lambda variables that hold a stateful function, anywhere in an expression, evaluated for
+		// several groups in an interleaved order
+		c.Class = "stateful-lambda-position"
+		c.Groups = rapid.IntRange(2, 3).Draw(t, "lgroups")
+		c.Tree = g.lambdaHost()
+		minSteps = 4
+	case 4:
+		// every stateful call precedes an operation that fails on some VALUES of a well-typed point
+		c.Class = "stateful-before-failure"
+		c.Tree, forced = g.failing()
+		minSteps = 3
 	default:
 		c.Class = "ill-typed"
 		want := rapid.SampledFrom([]VT{tBool, tBool, tInt, tFloat, tString, tDur}).Draw(t, "roottype")
@@ -125,7 +156,7 @@ func genCase(t *rapid.T) Case {
 		stable[n.Name] = n.Kind
 	}
 	refsGone := c.Tree.refs()["gone"]
-	nsteps := rapid.IntRange(1, 12).Draw(t, "nsteps")
+	nsteps := rapid.IntRange(minSteps, 12).Draw(t, "nsteps")
 	for i := 0; i < nsteps; i++ {
 		var s Step
 		s.G = rapid.IntRange(0, c.Groups-1).Draw(t, "g")
@@ -172,6 +203,10 @@ func genCase(t *rapid.T) Case {
 		}
 		s.Bind = map[string]SV{}
 		for _, n := range c.Names {
+			if pool := biasVals(c.Class, n, kinds[n]); len(pool) > 0 && rapid.IntRange(0, 2).Draw(t, "biased") > 0 {
+				s.Bind[n] = rapid.SampledFrom(pool).Draw(t, "biasval")
+				continue
+			}
 			s.Bind[n] = drawValue(t, kinds[n])
 		}
 		if refsGone {
@@ -929,7 +964,12 @@ func (a *oracleA) predict(g int, bind map[string]SV) []refOutcome {
 
 // judge compares the observed outcome with the predictions and advances the candidate
 // states. why != "": the property is violated (generic = failure signature).
-func (a *oracleA) judge(g int, preds []refOutcome, o outcome, entry, x string) (why, generic string) {
+//
+// evaluated: the expression is well-typed for the point and the entry point asks for its type, so
+// the point cannot be turned down by a type check: it is evaluated. If the evaluation then fails
+// on a value (rerr.val) after every stateful call site has been passed, the calls have processed
+// the point (see assumptions); otherwise every abort point is accepted.
+func (a *oracleA) judge(g int, preds []refOutcome, o outcome, entry, x string, evaluated bool) (why, generic string) {
 	if a.dead[g] {
 		return "", ""
 	}
@@ -967,7 +1007,7 @@ func (a *oracleA) judge(g int, preds []refOutcome, o outcome, entry, x string) (
 		}
 		next = append(next, st)
 	}
-	tolerated := false
+	tolerated, strict := false, false
 	for pass := 0; pass < 2 && len(next) == 0; pass++ {
 		// pass 0: candidates that agree exactly; pass 1: candidates that differ only in a
 		// non-float value derived from sigma() (tolerated, the group is not followed further)
@@ -985,7 +1025,11 @@ func (a *oracleA) judge(g int, preds []refOutcome, o outcome, entry, x string) (
 			if m == mTolerated {
 				tolerated = true
 			}
-			if o.err != "" { // the step failed: evaluation may have stopped at any stateful call
+			switch {
+			case o.err != "" && evaluated && p.e != nil && p.e.val && len(a.sites) > 0 && len(p.snaps) == len(a.sites):
+				// the point was evaluated, left to right, up to a failure behind the last stateful call
+				strict = true
+			case o.err != "": // the step failed: evaluation may have stopped at any stateful call
 				add(a.cands[g][j])
 				for _, sn := range p.snaps {
 					add(sn)
@@ -1008,6 +1052,9 @@ func (a *oracleA) judge(g int, preds []refOutcome, o outcome, entry, x string) (
 			generic = "eval/type-mismatch"
 		}
 		return why, generic
+	}
+	if strict {
+		a.cc.Label("stateful-calls-before-a-value-failure(state asserted)")
 	}
 	switch {
 	case tolerated:
@@ -1083,7 +1130,9 @@ func run(c Case, cc *kit.Case) {
 		} else {
 			stepOK = true
 		}
-		if why, generic := oa.judge(s.G, preds, o, s.Entry, x); why != "" {
+		rootT, wellTyped := staticType(c.Tree, stepEnv(s.Bind))
+		evaluated := wellTyped && oneOf(rootT, tInt, tFloat, tString, tBool, tDur) && (s.Entry == "eval" || vtOf(x) == rootT)
+		if why, generic := oa.judge(s.G, preds, o, s.Entry, x, evaluated); why != "" {
 			var hist []string
 			for k := 0; k <= i; k++ {
 				hist = append(hist, fmt.Sprintf("  step %d g%d %-10s %s -> %v", k, c.Steps[k].G, c.Steps[k].Entry+"/"+xs[k], fmtBind(c.Names, c.Steps[k].Bind), outs[k]))
